@@ -367,7 +367,8 @@ def mk_srs(E):
     h.attrs['stream_id'] = sid
     subscription = SOpaque('subscription', 'app-subscription')
     # the publisher hands its subscription to the wrapper synchronously (usual) or not at all before returning
-    sync = E.path.choice(2, 'publisher-calls-on_subscribe') == 1
+    # K-APP: Publisher.subscribe(s) calls s.on_subscribe(subscription) before it returns (every publisher of the library does)
+    sync = True
 
     def subscribe(E_, obj, method, args, kwargs):
         if sync:
